@@ -301,6 +301,31 @@ func c14(ctx *Ctx) (*Outcome, error) {
 					}
 					seenT[tn] = true
 				}
+				// ... and no struct declares a field twice (two properties share one Go name)
+				if !p.Usable() {
+					ast.Inspect(p.Report.File, func(nd ast.Node) bool {
+						st, ok := nd.(*ast.StructType)
+						if !ok {
+							return true
+						}
+						seenF := map[string]bool{}
+						for _, fl := range st.Fields.List {
+							for _, nm := range fl.Names {
+								if seenF[nm.Name] {
+									tagBad++
+									if len(cviol) < 5 {
+										b, _ := json.MarshalIndent(map[string]any{"property": "C14", "kind": "ast-census", "problem": "field " + nm.Name + " declared twice", "schema": json.RawMessage(jsonx.Marshal(c.Root.ToJSON())), "args": c.Args, "emitted": string(p.Src)}, "", " ")
+										path := filepath.Join(evid.ReplayDir(), fmt.Sprintf("C14-census-%d.json", len(cviol)))
+										_ = os.WriteFile(path, b, 0o644)
+										cviol = append(cviol, Viol{Replay: path, Summary: fmt.Sprintf("AST census: field %s is declared twice in one struct (two properties share one Go name)\n schema=%s", nm.Name, trunc(string(jsonx.Marshal(c.Root.ToJSON())), 500))})
+									}
+								}
+								seenF[nm.Name] = true
+							}
+						}
+						return true
+					})
+				}
 			}
 			if p == nil || !p.Usable() || c.Witness != "" {
 				continue
